@@ -53,6 +53,13 @@ impl<K: Clone + PartialEq + Eq + Hash + std::fmt::Debug + std::cmp::PartialOrd, 
         Arc::clone(entry)
     }
 
+    /// Drop an entry parked in wmap whose population failed, so that it is
+    /// never committed to rmap (where entries are taken to be loaded)
+    pub(crate) fn remove_from_wmap(&self, key: &K) {
+        let mut w = self.wmap.lock().unwrap();
+        w.remove(key);
+    }
+
     /// Flush key/value pairs from wmap to rmap
     pub(crate) fn commit_wmap(&self) -> Option<Vec<(K, AsyncLruCacheEntry<V>)>> {
         let mut w = self.wmap.lock().unwrap();
